@@ -39,6 +39,7 @@ fn list(s: &str) -> Vec<String> {
 struct RefAnim {
     cfg: Vec<Option<MergedTimeline<VTimeline>>>, // pristine
     cur: usize, t: Duration, pause: Option<(usize, Duration)>, values: V, start: Vec<V>,
+    total: Vec<f32>, // per state: max over components of delay + cycle * (repeats + 1), computed from the configuration
 }
 impl RefAnim {
     fn eval(&mut self) {
@@ -62,7 +63,7 @@ impl RefAnim {
         self.cur = s; self.eval();
     }
     fn is_ended(&self) -> bool {
-        match &self.cfg[self.cur] { None => true, Some(tl) => self.t.as_secs_f32() >= tl.duration() }
+        match &self.cfg[self.cur] { None => true, Some(_) => self.t.as_secs_f32() >= self.total[self.cur] }
     }
 }
 
@@ -72,26 +73,34 @@ fn run(line: &str) -> String {
     let timing = field(line, "timing"); // optional: "dur,delay,repeat,reverse" for component 0
     let mut k = 0usize;
     let mut cfg: Vec<Option<MergedTimeline<VTimeline>>> = vec![];
+    let mut total: Vec<f32> = vec![];
+    let tot = |k: usize| -> f32 {
+        if k == 0 && !timing.is_empty() {
+            let p: Vec<&str> = timing.split(';').collect();
+            let d: f32 = p[0].parse().unwrap(); let dl: f32 = p[1].parse().unwrap();
+            match p[2] { "none" => dl + d, "inf" => f32::INFINITY, n => dl + d * (n.parse::<u64>().unwrap() + 1) as f32 }
+        } else { 2.0 * k as f32 + (5.0 + k as f32) }
+    };
     for c in config.iter() {
         let mk = |k: usize| -> VTimeline {
             if k == 0 && !timing.is_empty() {
                 let p: Vec<&str> = timing.split(';').collect();
                 let rep = match p[2] { "none" => Repeat::None, "inf" => Repeat::Infinite, n => Repeat::Times(n.parse().unwrap()) };
                 component(k, p[0].parse().unwrap(), p[1].parse().unwrap(), rep, p[3] == "true")
-            } else { component(k, 5.0 + k as f32, 0.0, Repeat::None, false) }
+            } else { component(k, 5.0 + k as f32, 2.0 * k as f32, Repeat::None, false) }
         };
         match c.as_str() {
-            "none" => cfg.push(None),
-            "single" => { cfg.push(Some(MergedTimeline::of([mk(k)]))); k += 1; }
-            _ => { cfg.push(Some(MergedTimeline::of([mk(k), mk(k + 1)]))); k += 2; }
+            "none" => { cfg.push(None); total.push(0.0); }
+            "single" => { cfg.push(Some(MergedTimeline::of([mk(k)]))); total.push(tot(k)); k += 1; }
+            _ => { cfg.push(Some(MergedTimeline::of([mk(k), mk(k + 1)]))); total.push(tot(k).max(tot(k + 1))); k += 2; }
         }
     }
-    while cfg.len() < 4 { cfg.push(None); }
+    while cfg.len() < 4 { cfg.push(None); total.push(0.0); }
     let init = V { x: 3.0 };
     let mut b = StateAnimatorBuilder::new().from_state(St::A).from_values(init.clone());
     for (i, c) in cfg.iter().enumerate() { if let Some(tl) = c { b = b.on(STATES[i], tl.clone()); } }
     let mut anim = b.build();
-    let mut r = RefAnim { cfg: cfg.clone(), cur: 0, t: Duration::ZERO, pause: None, values: init.clone(), start: vec![init.clone(); 4] };
+    let mut r = RefAnim { cfg: cfg.clone(), cur: 0, t: Duration::ZERO, pause: None, values: init.clone(), start: vec![init.clone(); 4], total };
     if r.cfg[0].is_some() { r.start[0] = init.clone(); }
     let mut jump = false; let mut mism = false; let mut detail = String::new(); let mut trace = vec![];
     for (i, op) in ops.iter().enumerate() {
